@@ -53,8 +53,10 @@ def dump_mir(crate, fast_float):
     p = subprocess.run(cmd, cwd=cdir, env=env, capture_output=True, text=True, timeout=600)
     if p.returncode != 0 or len(p.stdout) < 1000:
         raise RuntimeError("MIR dump failed for %s: %s" % (tag, p.stderr[-2000:]))
-    with open(out, "w") as f:
+    tmp = "%s.%d.tmp" % (out, os.getpid())
+    with open(tmp, "w") as f:
         f.write(p.stdout)
+    os.replace(tmp, out)      # atomic: a concurrent check never reads a half-written dump
     return out, time.time() - t0
 
 
